@@ -1400,6 +1400,9 @@ class Evaluator:
             return [it.attrs[f] for f in it.nt_fields]
         if isinstance(it, ClassV) and it.ci.is_enum:
             return list(self.enum_members(it.ci))
+        if isinstance(it, App) and it.fn == "fresh" and it.args and isinstance(it.args[0], Tup) and it.kwd("dtype") == Const("int") \
+                and all(isinstance(i, Const) and isinstance(i.value, int) and not isinstance(i.value, bool) for i in it.args[0].items):
+            return list(it.args[0].items)     # an integer array literal cast to an integer dtype has the same elements
         if isinstance(it, Tup) and not any(isinstance(i, Star) for i in it.items):
             return list(it.items)
         if isinstance(it, Lst) and not it.pappends and not it.unknown:
